@@ -2,6 +2,8 @@
 
 package tcpassembly
 
+import "time"
+
 // Read-only accessors for the verification harness (build tag `verif` only).
 // They expose counters the lifecycle/leak-freedom property is stated about and
 // change no behaviour.
@@ -10,20 +12,33 @@ package tcpassembly
 // page cache and not yet returned.
 func (a *Assembler) VerifPagesUsed() int { return a.pc.used }
 
-// VerifConnPages returns, for every live connection of the assembler's pool,
-// the connection's own page counter and the length of its page list.
-func (a *Assembler) VerifConnPages() (counters, listed []int) {
-	a.connPool.mu.RLock()
-	defer a.connPool.mu.RUnlock()
-	for _, c := range a.connPool.conns {
-		n := 0
-		for p := c.first; p != nil; p = p.next {
-			n++
+// VerifConn describes one live connection of a pool.
+type VerifConn struct {
+	Stream   Stream
+	Pages    int       // connection.pages
+	Listed   int       // length of the list first..last
+	HasHead  bool      // first != nil
+	HeadSeen time.Time // first.Seen
+	LastSeen time.Time
+	Closed   bool
+}
+
+// VerifConns returns a description of every connection in the pool (map order).
+func (p *StreamPool) VerifConns() []VerifConn {
+	p.mu.RLock()
+	defer p.mu.RUnlock()
+	out := make([]VerifConn, 0, len(p.conns))
+	for _, c := range p.conns {
+		v := VerifConn{Stream: c.stream, Pages: c.pages, LastSeen: c.lastSeen, Closed: c.closed}
+		for pg := c.first; pg != nil; pg = pg.next {
+			v.Listed++
 		}
-		counters = append(counters, c.pages)
-		listed = append(listed, n)
+		if c.first != nil {
+			v.HasHead, v.HeadSeen = true, c.first.Seen
+		}
+		out = append(out, v)
 	}
-	return
+	return out
 }
 
 // VerifLiveConnections returns the number of connections in the pool.
